@@ -19,4 +19,5 @@ a82f9f4 C20
 04e88f3 C20
 4ac3266 C20
 32dce03 C20
+85aecbd C20
 LIST
